@@ -1576,11 +1576,14 @@ class Emit:
 
 
 # ----------------------------------------------------------------------------- driver
-GROUP_IMPORTS = {"KRatio": ["Fpdec.Gen.KPow", "Fpdec.Model.Decimal"], "KPow": ["Fpdec.Gen.Consts"], "KDivRounded": ["Fpdec.Gen.KRound", "Fpdec.Gen.KPow", "Fpdec.Model.Core"],
+GROUP_IMPORTS = {"KMagn": ["Fpdec.Gen.KLog", "Fpdec.Gen.Consts", "Fpdec.Model.Decimal"], "KRatio": ["Fpdec.Gen.KPow", "Fpdec.Model.Decimal"], "KPow": ["Fpdec.Gen.Consts"], "KDivRounded": ["Fpdec.Gen.KRound", "Fpdec.Gen.KPow", "Fpdec.Model.Core"],
                  "KDecDiv": ["Fpdec.Gen.KDivRounded"], "KDecMul": ["Fpdec.Gen.KDivRounded", "Fpdec.Model.Decimal"], "KNorm": [], "KFromStr": ["Fpdec.Gen.KPow", "Fpdec.Gen.Consts", "Fpdec.Model.Parser"], "KIntoFloat": ["Fpdec.Gen.Consts", "Fpdec.Model.Decimal"], "KIntOps": ["Fpdec.Gen.KDecDiv", "Fpdec.Gen.KNorm", "Fpdec.Gen.Consts", "Fpdec.Model.Decimal"], "KForward": ["Fpdec.Gen.KAddSub", "Fpdec.Gen.KDecOps"], "KIntConv": ["Fpdec.Gen.KPow", "Fpdec.Model.Decimal"], "KCmp": ["Fpdec.Gen.KPow", "Fpdec.Model.Decimal"], "KAddSub": ["Fpdec.Gen.KPow", "Fpdec.Model.Decimal"], "KDecUnops": ["Fpdec.Gen.KUnops", "Fpdec.Gen.KPow", "Fpdec.Model.Decimal"], "KDecOps": ["Fpdec.Gen.KDecDiv", "Fpdec.Gen.KDecMul", "Fpdec.Gen.KNorm", "Fpdec.Gen.Consts", "Fpdec.Model.Decimal"],
                  "KDecRound": ["Fpdec.Gen.KDivRounded", "Fpdec.Model.Decimal"],
                  "KFloat": ["Fpdec.Gen.KNorm", "Fpdec.Gen.Consts", "Fpdec.Model.Core", "Fpdec.Model.Decimal"], "KRem": ["Fpdec.Gen.KPow"], "KDecRem": ["Fpdec.Gen.KRem", "Fpdec.Model.Decimal"],
                  "KWideDiv": ["Fpdec.Gen.KWide", "Fpdec.Gen.KPow", "Fpdec.Gen.Consts", "Fpdec.Model.Core"]}
+# translated functions that only the listed groups call in their translated form; elsewhere the call goes to the hand-written model
+# function of the EXTERNAL table (its tie theorem shows the two agree on the i128 range)
+CALL_SCOPE = {"i128_magnitude": {"KMagn"}}
 LOOP_FUEL.update({("gcd_special", 1): 600, ("normalize", 1): 256, ("approx_rational", 1): 32, ("rem", 1): 256,
                   ("u256_idiv_u128_special_k", 1): 340282366920938463463374607431768211457,
                   ("u256_idiv_u128_special_k", 2): 340282366920938463463374607431768211457})
@@ -1612,6 +1615,13 @@ KERNELS = [
     ("KCmp", "src/binops/cmp.rs", "partial_cmp", "i64", {"as": "sint_cmp_decimal", "macro": ("impl_signed_int_cmp_decimal", 1, 0, {"$t": "i64"})}),
     ("KCmp", "src/binops/cmp.rs", "partial_cmp", "Decimal", {"as": "decimal_cmp_uint", "macro": ("impl_decimal_cmp_uint", 1, 0, {"$t": "u64"})}),
     ("KCmp", "src/binops/cmp.rs", "partial_cmp", "u64", {"as": "uint_cmp_decimal", "macro": ("impl_uint_cmp_decimal", 1, 0, {"$t": "u64"})}),
+    ("KCmp", "src/binops/cmp.rs", "eq_zero", "Decimal", {"macro": ("impl_basics", 0, 0, None), "as": "decimal_eq_zero"}),
+    ("KCmp", "src/binops/cmp.rs", "eq_one", "Decimal", {"macro": ("impl_basics", 0, 0, None), "as": "decimal_eq_one"}),
+    ("KCmp", "src/binops/cmp.rs", "is_negative", "Decimal", {"macro": ("impl_basics", 0, 0, None), "as": "decimal_is_negative"}),
+    ("KCmp", "src/binops/cmp.rs", "is_positive", "Decimal", {"macro": ("impl_basics", 0, 0, None), "as": "decimal_is_positive"}),
+    ("KMagn", "fpdec-core/src/lib.rs", "i128_magnitude", None),
+    ("KMagn", "src/lib.rs", "new_raw", "Decimal", {"as": "decimal_new_raw"}),
+    ("KMagn", "src/lib.rs", "magnitude", "Decimal", {"as": "decimal_magnitude"}),
     ("KAddSub", "src/binops/add_sub.rs", "coeff_or_panic", None),
     ("KAddSub", "src/binops/add_sub.rs", "$method", "Decimal", {"as": "decimal_add", "macro": ("impl_add_sub_decimal", 0, 0, None)}),
     ("KAddSub", "src/binops/add_sub.rs", "$method", "Decimal", {"as": "decimal_sub", "macro": ("impl_add_sub_decimal", 0, 1, None)}),
@@ -1849,7 +1859,8 @@ def translate(repo):
                         eff_ret = eff_ret[1][0]
                     if ret == "()":
                         kfin = (lambda i, mp=mp: "  " * i + "pure ((" + ", ".join(mp) + "))\n")
-                em = Emit(name, params, eff_ret, sigs, {**GLOBAL_CONSTS["*"], **GLOBAL_CONSTS.get(f, {})}, selfty)
+                vis = {k: v for k, v in sigs.items() if k not in CALL_SCOPE or g in CALL_SCOPE[k]}
+                em = Emit(name, params, eff_ret, vis, {**GLOBAL_CONSTS["*"], **GLOBAL_CONSTS.get(f, {})}, selfty)
                 em.self_consts = opts.get("self_consts", {})
                 em.decl_ret = ret
                 term = em.block_term(body, 1, kfin)
